@@ -14,6 +14,7 @@
 
 /* receiving side: bdat_rx.c (qsmtpd/data.c) + bdat_net.c (lib/netio.c) */
 extern void rx_run_case(int nf, unsigned char **fp, size_t *fl);
+extern void rx_run_script(int nf, unsigned char **fp, size_t *fl);
 void hx_out_str(const char *s) { out_str(s); }
 void hx_out_hex(const void *p, size_t l) { out_hex(p, l); }
 void hx_out_int(long v) { out_int(v); }
@@ -83,10 +84,10 @@ static void run_case(int nf, struct field *f)
 		} else out_str(h_final ? " ABORTLATE" : " ABORT");
 		if (h_badstatus) out_str(" BADSTATUS");
 		out_str(" LOG"); out_int(h_logs);
-	} else if (f[0].p[0] == 0xbb) {
+	} else if (f[0].p[0] == 0xbb || f[0].p[0] == 0xbd) {
 		unsigned char **fp = malloc(nf * sizeof(*fp)); size_t *fl = malloc(nf * sizeof(*fl));
 		for (int i = 0; i < nf; i++) { fp[i] = f[i].p; fl[i] = f[i].len; }
-		rx_run_case(nf, fp, fl);
+		if (f[0].p[0] == 0xbb) rx_run_case(nf, fp, fl); else rx_run_script(nf, fp, fl);
 		free(fp); free(fl);
 	} else out_str("BADCASE");
 }
